@@ -176,6 +176,16 @@ def gen_lower_flags():
         and bool(re.search(r"self\.%s\s*=" % field, lf))
     stmt = fn_body(code, "lower_stmt", [r"TypedStmtKind::Break", r"TypedStmtKind::Let"])
     nested_struct = bool(re.search(r"StructDecl\s*\{[^{}]*\}\s*=>\s*\{[^{}]*\w*struct_decl\s*\(", stmt, flags=re.S))
+    m_blk = re.search(r"TypedStmtKind::Block\s*\(\s*\w+\s*\)\s*=>\s*\{", stmt)
+    blk_scoped = False
+    if m_blk:
+        depth, k = 1, m_blk.end()
+        while k < len(stmt) and depth:
+            depth += {"{": 1, "}": -1}.get(stmt[k], 0)
+            k += 1
+        blk_scoped = "truncate" in stmt[m_blk.end():k]
+    loops_scoped = all("truncate" in fn_body(code, n, mk) for n, mk in
+                       (("lower_for", [r"BinOp::Le", r"incr"]), ("lower_foreach", [r"__aelys_len"])))
     b = lambda x: "true" if x else "false"
     out = [extract.HEADER.format(src=src),
            "(* lower_type_from_infer, Struct(name): the type-parameter lookup comes before the struct check *)\n",
@@ -191,5 +201,8 @@ def gen_lower_flags():
            f"Definition SAVES_ALIASES : bool := {b(saves('block_aliases'))}.\n",
            f"Definition SAVES_NAMES : bool := {b(saves('locals_by_name'))}.\n",
            "(* lower_stmt lowers a struct declared inside a function body *)\n",
-           f"Definition LOWERS_NESTED_STRUCT_DECL : bool := {b(nested_struct)}.\n"]
+           f"Definition LOWERS_NESTED_STRUCT_DECL : bool := {b(nested_struct)}.\n",
+           "(* the name table is cut back at the end of a block statement / of a for and for-each loop *)\n",
+           f"Definition BLOCK_SCOPES_NAMES : bool := {b(blk_scoped)}.\n",
+           f"Definition LOOP_SCOPES_NAMES : bool := {b(loops_scoped)}.\n"]
     return extract.write_if_changed("LowerFlags.v", "".join(out))
